@@ -66,8 +66,13 @@ type SPDesc struct {
 	WantAssertionsSigned string     // "" = attribute absent
 	WantAssertionSigned  string
 	NoSPSSO              bool
-	Prefix               string // "md" default; "" = default namespace
-	Indent               bool
+	// Decor adds parts of a metadata document that say nothing about the service provider role's endpoints and keys:
+	// bit 0 Extensions / Organization / ContactPerson, bit 1 an IDPSSODescriptor of the same entity (with a key and
+	// endpoints of its own) in front of the SPSSODescriptor, bit 2 an AttributeConsumingService, bit 3 validUntil /
+	// cacheDuration / ID on the document element
+	Decor  int
+	Prefix string // "md" default; "" = default namespace
+	Indent bool
 }
 
 func q(prefix, local string) string {
@@ -87,8 +92,24 @@ func (d *SPDesc) Node() *Node {
 		root.Set("xmlns:"+p, NSMD)
 	}
 	root.Set("entityID", d.EntityID)
+	if d.Decor&8 != 0 {
+		root.Set("validUntil", "2099-01-01T00:00:00Z").Set("cacheDuration", "PT12H").Set("ID", "_md"+fmt.Sprint(len(d.EntityID)))
+	}
+	if d.Decor&1 != 0 {
+		root.Add(El(q(p, "Extensions")).Add(El("x:Info", Attr{"xmlns:x", "urn:example:md-ext"}).SetText("decor")))
+	}
 	if d.NoSPSSO {
 		return root
+	}
+	if d.Decor&2 != 0 {
+		// the entity is an identity provider as well: that role's key and endpoints are not the service provider's
+		idp := El(q(p, "IDPSSODescriptor")).Set("protocolSupportEnumeration", NSP)
+		kd := El(q(p, "KeyDescriptor")).Set("use", "signing")
+		kd.Add(El("ds:KeyInfo", Attr{Name: "xmlns:ds", Value: NSDS}).Add(El("ds:X509Data").Add(El("ds:X509Certificate").SetText(keys.Get("attacker").B64()))))
+		idp.Add(kd)
+		idp.Add(El(q(p, "SingleLogoutService"), Attr{"Binding", BindPost}, Attr{"Location", "https://evil-idp-role.example/slo"}))
+		idp.Add(El(q(p, "SingleSignOnService"), Attr{"Binding", BindRedirect}, Attr{"Location", "https://evil-idp-role.example/sso"}))
+		root.Add(idp)
 	}
 	sp := El(q(p, "SPSSODescriptor"))
 	if d.WantAssertionsSigned != "" {
@@ -147,7 +168,21 @@ func (d *SPDesc) Node() *Node {
 		}
 		sp.Add(e)
 	}
+	if d.Decor&4 != 0 {
+		acs := El(q(p, "AttributeConsumingService")).Set("index", "0").Set("isDefault", "true")
+		acs.Add(El(q(p, "ServiceName"), Attr{"xml:lang", "en"}).SetText("Decor service"))
+		acs.Add(El(q(p, "RequestedAttribute"), Attr{"Name", "Email"}, Attr{"isRequired", "true"}))
+		sp.Add(acs)
+	}
 	root.Add(sp)
+	if d.Decor&1 != 0 {
+		org := El(q(p, "Organization"))
+		org.Add(El(q(p, "OrganizationName"), Attr{"xml:lang", "en"}).SetText("Decor Ltd"))
+		org.Add(El(q(p, "OrganizationDisplayName"), Attr{"xml:lang", "en"}).SetText("Decor"))
+		org.Add(El(q(p, "OrganizationURL"), Attr{"xml:lang", "en"}).SetText("https://evil-org-url.example/"))
+		root.Add(org)
+		root.Add(El(q(p, "ContactPerson"), Attr{"contactType", "technical"}).Add(El(q(p, "EmailAddress")).SetText("mailto:ops@evil-contact.example")))
+	}
 	return root
 }
 
